@@ -171,12 +171,41 @@ def run_driver(cmd, cases, timeout=600, cwd=None):
     return outs, ("rc=%d %s" % (p.returncode, p.stderr[-300:]) if crashed else "")
 
 
-def run_driver_robust(cmd, cases, timeout=600, cwd=None):
+def run_driver_robust(cmd, cases, timeout=600, cwd=None, isolate_hangs=False):
     """As run_driver, but if the process dies mid-stream, re-run the remaining cases one
     batch at a time so that one crashing case does not hide the rest."""
     outs, note = run_driver(cmd, cases, timeout, cwd)
     if outs is None:
-        return [["<timeout>"] for _ in cases], note
+        if not isolate_hangs:
+            return [["<timeout>"] for _ in cases], note
+        # the stream did not finish: find the inputs on which the driver does not terminate instead of waiting the
+        # full budget again and again - chunks with a proportional budget, then single cases inside a hanging chunk;
+        # after a few hanging inputs the remaining cases are left out of this run ("<skipped>", never evaluated)
+        res, hangs, size = [], 0, 50
+        chunk_budget = max(30, int(4.0 * timeout * size / max(1, len(cases))))
+        i = 0
+        while i < len(cases):
+            if hangs >= 3:
+                res.extend([["<skipped>"]] * (len(cases) - i))
+                break
+            chunk = cases[i:i + size]
+            o, n = run_driver(cmd, chunk, chunk_budget, cwd)
+            if o is not None:
+                res.extend(o if not n else run_driver_robust(cmd, chunk, chunk_budget, cwd, False)[0])
+            else:
+                one = max(10, chunk_budget // 5)
+                for c in chunk:
+                    if hangs >= 3:
+                        res.append(["<skipped>"])
+                        continue
+                    o1, n1 = run_driver(cmd, [c], one, cwd)
+                    if o1 is None:
+                        hangs += 1
+                        res.append(["<timeout>"])
+                    else:
+                        res.append(o1[0] if not n1 else o1[0] + ["<crash %s>" % n1.split("\n")[0][:120]])
+            i += size
+        return res, "timeout (%d hanging input(s) isolated)" % hangs
     if not note:
         return outs, note
     # find first incomplete case and isolate it
@@ -331,7 +360,7 @@ def main_check(plugin, tier, replay=None):
         for s in streams:
             if not s.cases:
                 continue
-            impl_out, inote = run_driver_robust(s.impl_cmd, s.cases, s.timeout)
+            impl_out, inote = run_driver_robust(s.impl_cmd, s.cases, s.timeout, None, True)
             if inote:
                 diagnostics.append("impl driver %s: %s" % (s.name, inote[:200]))
             model_out = None
@@ -339,9 +368,22 @@ def main_check(plugin, tier, replay=None):
                 model_out, mnote = run_driver_robust(s.model_cmd, s.cases, s.timeout, cwd=LEAN)
                 if mnote:
                     diagnostics.append("model driver %s: %s" % (s.name, mnote[:200]))
+                if mnote == "timeout":
+                    # the MODEL driver ran out of its budget (machine load): nothing is known about the code - that is a
+                    # failure of the machinery (exit 2), never a violation
+                    print("[check] model driver of stream %s exceeded its budget of %ds: machinery failure" % (s.name, s.timeout))
+                    return 2
             for i, c in enumerate(s.cases):
-                evaluations += 1
                 io = impl_out[i]
+                if io == ["<skipped>"]:
+                    continue
+                evaluations += 1
+                if io == ["<timeout>"]:
+                    hist["implementation-does-not-terminate"] = hist.get("implementation-does-not-terminate", 0) + 1
+                    mon_fail.append((s, c, io, model_out[i] if model_out else None,
+                                     ["[hang] the implementation does not terminate on this input (no answer within the "
+                                      "per-input budget; the model answers: %s)" % (" | ".join(model_out[i])[:160] if model_out else "-")]))
+                    continue
                 # output the plug-in cannot even parse is output no correct implementation produces: it is a
                 # monitor failure on that input (searched, shrunk and reported like any other), not a crash of the check
                 try:
@@ -388,14 +430,14 @@ def main_check(plugin, tier, replay=None):
         json.dump(obj, open(path, "w"), indent=1)
         return path
 
-    def shrink(s, c, pred):
+    def shrink(s, c, pred, budget=40):
         head, body = c.lines[:1], c.lines[1:]
 
         def test(b):
             cc = Case(head + b, {})
             return pred(cc)
         try:
-            nb = ddmin(body, test, budget=40)
+            nb = ddmin(body, test, budget=budget)
         except Exception:
             nb = body
         return Case(head + nb, {})
@@ -415,8 +457,12 @@ def main_check(plugin, tier, replay=None):
     for (s, c, io, mo, mv) in unknown[:6]:
         sig0 = mv[0].split("]")[0] if mv[0].startswith("[") else mv[0][:25]
 
+        hang = sig0.startswith("[hang")
+
         def still_fails(cc, s=s, sig0=sig0):
-            o, _ = run_driver_robust(s.impl_cmd, [cc], 60)
+            o, _ = run_driver_robust(s.impl_cmd, [cc], 15 if hang else 60)
+            if hang:
+                return o[0] == ["<timeout>"]
             if any("bad-op" in l for l in o[0]):
                 return False
             if hasattr(plugin, "valid_case") and not plugin.valid_case(s.name, cc, o[0], None):
@@ -426,10 +472,10 @@ def main_check(plugin, tier, replay=None):
             except Exception as ex:
                 ms = ["[unparsable] %s" % type(ex).__name__]
             return any(m.startswith(sig0) for m in ms)
-        small = shrink(s, c, still_fails)
-        o, _ = run_driver_robust(s.impl_cmd, [small], 60)
+        small = shrink(s, c, still_fails, 10 if hang else 40)
+        o, _ = run_driver_robust(s.impl_cmd, [small], 15 if hang else 60)
         try:
-            mv2 = plugin.monitor(s.name, small, o[0]) or mv
+            mv2 = mv if hang else (plugin.monitor(s.name, small, o[0]) or mv)
         except Exception:
             mv2 = mv
         desc = "; ".join(mv2)[:400]
